@@ -2,6 +2,7 @@ import Wx.Job.Faults
 import Wx.Job.C04Sim
 import Wx.Job.C07b
 import Wx.Job.SimInduct
+import Wx.Job.C10b
 /-! Theorems about the fault-aware task `Jf` (Wx/Job/Faults.lean).
 
     A. Without faults `Jf` IS the verified model `Jm`: every run of `runOpsF` is a run of `runOps` and vice versa
@@ -552,5 +553,96 @@ theorem c07_faults (behs : List Beh) (faults : List Fault) (ops : List Op) (hok 
     · exact ⟨by simp [initialF], by simp [initialF]⟩
   have := c07_finv.runOpsF ops (fun o ho => by have := hok o ho; cases o <;> first | exact this | trivial) h0 z hz
   exact ⟨this.good.nl, this.cp⟩
+
+/-! ## E. C10 under faults: failed calls reorder nothing -/
+
+theorem failCtl_qv (x : FSt) (m : Msg) (o : Obs) : (failCtl x m o).st.qv = x.st.qv := by
+  simp [failCtl]
+
+theorem killOnly_qv (s : St) (c : ChildId) : (killOnly s c).qv = s.qv := by
+  unfold killOnly; simp only []; split <;> rfl
+
+theorem clearSlot_qv (x : FSt) : (clearSlot x).st.qv = x.st.qv := by
+  unfold clearSlot; split <;> rfl
+
+theorem afterKillFault_qv {x y : FSt} {m : Msg} {c : ChildId} (hy : afterKillFault x m c = some y) : y.st.qv = x.st.qv := by
+  unfold afterKillFault at hy
+  split at hy
+  · cases hy; exact failCtl_qv _ _ _
+  · split at hy
+    · cases hy
+      rw [failCtl_qv]; exact killOnly_qv _ _
+    · cases hy
+
+theorem getD_qv {o : Option FSt} {d : FSt} {q : QV} (ho : ∀ y, o = some y → y.st.qv = q) (hd : d.st.qv = q) : (o.getD d).st.qv = q := by
+  cases o with
+  | none => exact hd
+  | some y => exact ho y rfl
+
+/-- a control's handling never touches the queues or the send / receive records, whether its calls fail or not -/
+theorem handleF_qv (x : FSt) (m : Msg) : (handleF x m).st.qv = x.st.qv := by
+  have hl : (lift x m).st.qv = x.st.qv := handle_qv _ _
+  unfold handleF
+  split
+  · split
+    · exact getD_qv (fun y hy => afterKillFault_qv hy) hl
+    · exact getD_qv (fun y hy => afterKillFault_qv hy) hl
+    · exact getD_qv (fun y hy => (afterKillFault_qv hy).trans (clearSlot_qv x)) hl
+    · split
+      · exact failCtl_qv _ _ _
+      · exact hl
+    · split
+      · exact failCtl_qv _ _ _
+      · exact hl
+    · split
+      · exact failCtl_qv _ _ _
+      · exact hl
+    · exact hl
+  · exact hl
+
+theorem fifo_waitTurns {s : St} (h : Fifo s) : ∀ t ∈ waitTurns s, Fifo t := fun t ht =>
+  fifo_turnCandidates h t (by rw [turnCandidates_eq]; exact List.mem_append_left _ ht)
+
+theorem fifo_turnsF {x : FSt} (h : Fifo x.st) : ∀ y ∈ turnsF x, Fifo y.st := by
+  intro y hy
+  unfold turnsF at hy
+  split at hy
+  · cases hy
+  · split at hy
+    · obtain ⟨t, ht, rfl⟩ := List.mem_map.1 hy; exact fifo_closedOutcome h t ht
+    · rcases List.mem_append.1 hy with hy | hy
+      · unfold waitTurnsF at hy
+        split at hy
+        · split at hy
+          · simp only [List.mem_singleton] at hy; subst hy
+            exact fifo_congr (s := x.st) (by simp; rfl) h
+          · obtain ⟨t, ht, rfl⟩ := List.mem_map.1 hy; exact fifo_waitTurns h t ht
+        · obtain ⟨t, ht, rfl⟩ := List.mem_map.1 hy; exact fifo_waitTurns h t ht
+      · obtain ⟨src, _, hres⟩ := List.mem_filterMap.mp hy
+        cases ht : takeFrom x.st src with
+        | none => simp [ht] at hres
+        | some p =>
+          obtain ⟨m, s1⟩ := p
+          simp only [ht, Option.some.injEq] at hres
+          subst hres
+          have h1 : Fifo s1 := fifo_takeFrom h ht
+          have h2 : Fifo ({ s1 with parked := false } : St) := fifo_congr rfl h1
+          exact fifo_congr (handleF_qv { x with st := { s1 with parked := false } } m) h2
+
+theorem fifo_finv : FInv Fifo (fun _ _ => True) where
+  turnsF := fun _ h => fifo_turnsF h
+  park := fifo_simInv.park
+  drain := fifo_simInv.drain
+  now := fifo_simInv.now
+  close := fifo_simInv.close
+  send := fun _ p cs aw hs h => fifo_simInv.doSend p cs aw hs h
+  clone := fun x w h => fifo_simInv.stepOp (.clone w) trivial h _ (by simp [stepOp])
+
+/-- **C10 when calls on the child fail**: per queue, what `recv` has returned followed by what is still queued is what was
+    sent, in send order — for every fault script, every history, every race resolution -/
+theorem c10_faults (cfg : Fixes) (behs : List Beh) (faults : List Fault) (ops : List Op) :
+    ∀ z ∈ runOpsF (initialF cfg behs faults) ops, Fifo z.x.st := by
+  apply fifo_finv.runOpsF ops (fun o _ => by cases o <;> simp [OpOkFor])
+  intro q _; cases q <;> simp [St.qv, proj, QV.ids, initialF]
 
 end Jf
